@@ -191,7 +191,9 @@ func runC01(e *env) {
 		}
 		gu := gounionsSkeleton(o)
 		e.m.count("gounions_list_" + strings.ToLower(strings.TrimPrefix(strings.SplitN(strings.Trim(gu, "("), " ", 2)[0], "Gu")))
-		cases = append(cases, fmt.Sprintf("{| c1_ana := %s;\n c1_gu := %s;\n c1_prog := %s;\n c1_enums := %s;\n c1_choices := %s;\n c1_receivers := %s;\n c1_declared := %s |}",
+		rd := randdataSkeleton(o)
+		e.m.count("randdata_list_" + strings.ToLower(strings.TrimPrefix(strings.SplitN(strings.Trim(rd, "("), " ", 2)[0], "Rd")))
+		cases = append(cases, fmt.Sprintf("{| c1_ana := %s;\n c1_gu := %s;\n c1_rd := "+rd+";\n c1_prog := %s;\n c1_enums := %s;\n c1_choices := %s;\n c1_receivers := %s;\n c1_declared := %s |}",
 			o.Ana, gu, o.Facts, o.Enums, coqList(choices), coqList(receivers), coqList(declared)))
 		inputs = append(inputs, map[string]interface{}{"module": specs[i], "class": caseClass})
 		if len(cases) == 6 {
